@@ -25,6 +25,14 @@ fn write_at(f: &mut Vec<u8>, at: usize, data: &[u8]) {
     f[at..at + data.len()].copy_from_slice(data);
 }
 
+/// a directory entry with any field values; zero fields are common in real dumps (an empty
+/// stream has size 0 but a type and a position; a failed optional stream hands in an all-zero entry)
+fn random_dirent(rng: &mut Rng) -> MDRawDirectory {
+    let mut f = |rng: &mut Rng| if rng.chance(1, 3) { 0 } else { rng.u32() };
+    let (t, sz, rva) = (f(rng), f(rng), f(rng));
+    MDRawDirectory { stream_type: t, location: MDLocationDescriptor { data_size: sz, rva } }
+}
+
 fn dirent_bytes(d: &MDRawDirectory) -> [u8; 12] {
     let mut b = [0u8; 12];
     b[0..4].copy_from_slice(&d.stream_type.to_le_bytes());
@@ -153,7 +161,7 @@ pub fn run_history(seed: u64) -> Outcome {
             kinds.push(b'g');
             res = Ok(());
         } else if op < 6 && emitted < count {
-            let d = MDRawDirectory { stream_type: rng.u32(), location: MDLocationDescriptor { data_size: rng.u32(), rva: rng.u32() } };
+            let d = random_dirent(&mut rng);
             let off = start as usize + dir_pos + 12 * emitted as usize;
             applied.push((off, dirent_bytes(&d).to_vec()));
             ops.push(format!("emit[{emitted}]"));
@@ -161,7 +169,7 @@ pub fn run_history(seed: u64) -> Outcome {
             res = dir.dump_dir_entry(&mut buffer, d).map_err(|e| e.to_string());
             emitted += 1;
         } else if op < 8 && emitted < count {
-            let d = MDRawDirectory { stream_type: rng.u32(), location: MDLocationDescriptor { data_size: rng.u32(), rva: rng.u32() } };
+            let d = random_dirent(&mut rng);
             let off = start as usize + dir_pos + 12 * emitted as usize;
             applied.push((off, dirent_bytes(&d).to_vec()));
             ops.push(format!("flush+emit[{emitted}](+{})", buffer.position() as usize - flushed));
